@@ -56,7 +56,7 @@ NAMED.update({"1": ONE, "A": A_, "V": V_, "s": S_, "min": MIN, "h": H, "kW": KW,
 CONV = {1000: U(k=1 / 1000), 60: U(k=1 / 60), 3600: U(k=1 / 3600)}
 LIT = "LIT"
 
-PASS_THROUGH = {"abs", "float", "int", "sum", "ceil", "floor", "array", "asarray", "mean", "Decimal", "copy", "deepcopy",
+PASS_THROUGH = {"abs", "float", "int", "sum", "ceil", "floor", "trunc", "rint", "array", "asarray", "mean", "Decimal", "copy", "deepcopy",
                 "round", "max", "min", "amax", "amin", "tolist", "cumsum", "sorted", "list", "tuple", "nanmax", "nanmin"}
 SAME_ALL = {"min", "max", "minimum", "maximum", "clip", "fmin", "fmax"}
 
@@ -144,6 +144,19 @@ class Units:
                 return lu / ru if isinstance(n.op, ast.Div) else lu * ru
             if isinstance(n.op, (ast.Add, ast.Sub)):
                 return self.same_all([n.left, n.right], n, "operands of +/- have different units", "addsub")
+            if isinstance(n.op, (ast.FloorDiv, ast.Mod)):
+                # truncating division: fine when the quotient is a pure count (s // (s per period)), a defect when it
+                # truncates a dimensioned quantity or a unit-conversion factor (60 // period)
+                if l is None or r is None or (l == LIT and r == LIT):
+                    return None
+                lu = ONE if l == LIT else l
+                ru = ONE if r == LIT else r
+                q = lu / ru
+                self.ops += 1
+                if not q.same(ONE):
+                    self.issue(n, f"`{src(n, 50)}` truncates a quantity in {q} (integer division of a dimensioned value / conversion factor): "
+                               f"exact only when the operands happen to divide evenly", "trunc-floordiv")
+                return q if isinstance(n.op, ast.FloorDiv) else lu
             return None
         if isinstance(n, ast.Call):
             return self.call(n)
@@ -207,7 +220,13 @@ class Units:
                 and self.dn(n.func.value) not in ("np", "numpy", "math"):
             for a in n.args:
                 self.u(a)
-            return self.u(n.func.value)     # method-form reduction keeps the receiver's unit
+            ru = self.u(n.func.value)
+            if last == "astype" and n.args and (dotted(n.args[0]) in ("int", "np.int64", "np.int32") or
+                                                 (isinstance(n.args[0], ast.Constant) and str(n.args[0].value).startswith("int"))) and isinstance(ru, U):
+                self.ops += 1
+                if not ru.same(ONE):
+                    self.issue(n, f"`{src(n, 50)}` casts a quantity in {ru} to an integer", "trunc-astype")
+            return ru     # method-form reduction keeps the receiver's unit
         if last == "dot" and isinstance(n.func, ast.Attribute) and n.args:
             a, b = self.u(n.func.value), self.u(n.args[0])
             if isinstance(a, U) and isinstance(b, U):
@@ -218,6 +237,11 @@ class Units:
             if not n.args:
                 return None
             us = [self.u(a) for a in n.args]
+            if last in ("int", "floor", "ceil", "round", "trunc", "rint") and isinstance(us[0], U):
+                self.ops += 1
+                if not us[0].same(ONE):
+                    self.issue(n, f"`{src(n, 50)}` rounds a quantity in {us[0]} to an integer (only pure counts such as period indices may be truncated)",
+                               f"trunc-{last}")
             return us[0]
         if last == "full" and len(n.args) >= 2:
             self.u(n.args[0])
